@@ -233,9 +233,10 @@ def runOps (c : C) : List Op → List String → C × List String
 
 def showQ (q : Q) : String := s!"{q.cmds.length}{if q.running then "*" else ""}{q.left}"
 
-def handleWake (nq : Nat) (ops : List Op) : String :=
-  let r := runOps { d := { qs := List.replicate nq {} } } ops []
-  Util.joinWith " " r.2 ++ " | " ++ Util.joinWith "," (r.1.d.qs.map showQ) ++ s!" | in={r.1.inb.length} out={r.1.outb.length} send={r.1.d.toSend.length}"
+/-- `fresh` = the driver has never ticked (the memory-copy middleware's timer still reports progress once) -/
+def handleWake (nq : Nat) (fresh : Bool) (ops : List Op) : String :=
+  let r := runOps { d := { qs := List.replicate nq {}, cyc := if fresh then some 0 else none } } ops []
+  Util.joinWith " " r.2 ++ " | " ++ Util.joinWith "," (r.1.d.qs.map showQ) ++ s!" | in={r.1.inb.length} out={r.1.outb.length}"
 
 end Drv
 end W
